@@ -355,3 +355,6 @@ macro_rules! assert_json {
         json
     }};
 }
+
+#[cfg(kani)]
+pub(crate) mod verif_kani;
